@@ -22,7 +22,7 @@ def entries(prog):
 def run_panics(ctx):
     run_panic_inventory(ctx, "C12.R1", entries(ctx.prog),
                         "no unreviewed panic site is reachable from the FEN reader and writer",
-                        fn_floor=55, site_floor=30)
+                        fn_floor=55, site_floor=30, declared_invariants_undecided="asserts")
 
 
 def run(ctx):
